@@ -20,6 +20,7 @@ package agreement
 
 import (
 	"fmt"
+	"os"
 	"sort"
 	"strings"
 	"testing"
@@ -797,6 +798,9 @@ func c02RunCase(t *rapid.T, tt *testing.T, vk *vkCtx) {
 	}
 	r.cleanup()
 	r.failIfViolated()
+	if os.Getenv("VERIF_C02_DUMP") != "" {
+		tt.Logf("---- case history ----\n%s", w.history())
+	}
 
 	// ---- evidence
 	w.mu.Lock()
